@@ -101,9 +101,13 @@ def oracle_vars(n, counted_x):
     return set()
 
 
+def empty_stmt(s):
+    """`;` or a block of nothing but such statements"""
+    return s is None or type(s).__name__ == "EmptyStatement" or (type(s).__name__ == "Compound" and all(empty_stmt(c) for c in (s.block_items or [])))
+
+
 def empty_body(loop):
-    s = loop.stmt
-    return s is None or type(s).__name__ == "EmptyStatement" or (type(s).__name__ == "Compound" and not s.block_items)
+    return empty_stmt(loop.stmt)
 
 
 def line_oracle(text, merge=False):
@@ -284,6 +288,16 @@ def check_file(src, deep=True):
     ast2 = deepcopy(ast)
     fs2 = [e for e in ast2.ext if type(e).__name__ == "FuncDef" and type(e.body).__name__ == "Compound"]
     want_order = {f.decl.name: [id(l) for l in oracle_loops(f, counted)] for f in fs2}
+    # the text of every loop as the source has it (generated before the tool touches anything), for the loops the gate accepts as they are
+    from pymwp import Coverage
+    from pymwp.parser import Parser as _pr
+    pristine = {}
+    for f in fs2:
+        for l in oracle_loops(f, counted):
+            try:
+                pristine[id(l)] = _pr.to_c(l) if Coverage(deepcopy(l)).full else None
+            except Exception:
+                pristine[id(l)] = None
     node_of = {id(l): l for f in fs2 for l in oracle_loops(f, counted)}
     inspected = []
     orig_inspect = LoopAnalysis.inspect
@@ -317,6 +331,13 @@ def check_file(src, deep=True):
             else:
                 fail("loop-results: loop mode results are not the non-empty loops in source order", ["loop-results"], len(exp), len(got_ids))
             return fails, info
+        # text: a loop the gate accepts as it is is reported with the text the source has for it
+        for lid, lr in zip(got_ids, r.loops[name].loops):
+            want_c = pristine.get(lid)
+            if want_c is not None and "".join(want_c.split()) != "".join((lr.loop_code or "").split()):
+                fail("loop-text: the reported loop text is not the text of the loop in the source (the loop is fully supported, nothing is to be removed)",
+                     ["loop-text"], want_c, lr.loop_code)
+                return fails, info
         # alone: re-analyse the first loops as whole programs
         for k, lr in enumerate(r.loops[name].loops[:2]):
             code = lr.loop_code
@@ -355,7 +376,7 @@ def S_ids(code):
 
 def shrink_src(src, sig):
     """delete statements / hoist bodies while a failure with the same sig remains"""
-    deep = sig[1] in ("empty-body-reported", "loop-results", "alone")
+    deep = sig[1] in ("empty-body-reported", "loop-results", "alone", "loop-text")
 
     def bad(s):
         try:
